@@ -6,157 +6,245 @@ use crate::rules::util::*;
 use serde_json::json;
 use std::collections::BTreeMap;
 
-pub fn run(m: &Model, ctx: &mut Ctx) {
-    ctx.explanation = "C14.keep: the enumeral fold closure is evaluated abstractly: an explicit number (including negative ones) is stored unchanged, the identifier is stored verbatim, items are appended in fold order; the number parser is signed (i128). \
-C14.dep: the number given to an identifier-only enumeral must be data-dependent on the numbers already used in the type (X.680 §20.4-20.7: successive integers that *skip* used numbers; additions never reuse one): \
-the closure is evaluated with an accumulator whose explicit numbers collide with the positional candidate, and a number computed from the position alone is reported. \
-C14.start: numbering of the additions continues from a value derived from the root list, never from a constant. \
-C14.emit: the generator emits Literal::i128_unsuffixed(e.index) as the discriminant of the same enumeral and keeps iteration order (no filter/sort/reverse on the member list). \
-Not decided: the full §20 numbering algorithm over arbitrary explicit/implicit mixes once it depends on the used set.".into();
-    ctx.assumptions = vec!["nom's fold_many0 applies the closure left to right to each parsed enumeral".into()];
-    ctx.rule("abstract evaluation of the numbering closure over {explicit, identifier-only} x small accumulators; def-use of the additions' start value; template checks");
-    let consts = const_resolver(m);
-    let ev = Evaluator { consts: &consts, call_hook: &crate::eval::no_hook, inline: None };
-
-    let Some(f) = anchor_fn(m, ctx, "C14", None, "enumerals", Some("lexer::enumerated")) else { return };
-    let start_param = f.sig.inputs.iter().filter_map(|a| match a { syn::FnArg::Typed(t) => Some(tok(&t.pat)), _ => None }).next().unwrap_or("start_index".into());
-    // the fold closure: the one whose body builds an Enumeral
-    struct C {
-        out: Vec<syn::ExprClosure>,
+/// X.680 (02/2021) clause 20 numbering. `None` = identifier-only. Returns None when the input violates the clause's own
+/// preconditions (duplicate explicit numbers; an additional NamedNumber not greater than its predecessors or used in the root).
+fn spec_numbering(root: &[Option<i128>], add: &[Option<i128>]) -> Option<(Vec<i128>, Vec<i128>)> {
+    let explicit: Vec<i128> = root.iter().filter_map(|x| *x).collect();
+    for (i, e) in explicit.iter().enumerate() {
+        if explicit[..i].contains(e) {
+            return None;
+        }
     }
-    impl model::DeepCb for C {
-        fn expr(&mut self, e: &syn::Expr) {
-            if let syn::Expr::Closure(c) = e {
-                if tok(&c.body).contains("Enumeral{") {
-                    self.out.push(c.clone());
+    let mut next = 0i128;
+    let mut r = vec![];
+    for it in root {
+        match it {
+            Some(n) => r.push(*n),
+            None => {
+                while explicit.contains(&next) {
+                    next += 1;
                 }
+                r.push(next);
+                next += 1;
             }
         }
     }
-    let mut c = C { out: vec![] };
-    model::deep_walk_block(&f.block, &mut c);
-    if c.out.len() != 1 {
-        ctx.fail_closed("C14", "enumerals(): numbering closure not found");
+    let mut a = vec![];
+    let mut prev: Option<i128> = None;
+    for it in add {
+        let n = match it {
+            Some(n) => {
+                if r.contains(n) || prev.map(|p| *n <= p).unwrap_or(false) {
+                    return None;
+                }
+                *n
+            }
+            None => {
+                let mut c = prev.map(|p| p + 1).unwrap_or(0).max(0);
+                while r.contains(&c) {
+                    c += 1;
+                }
+                c
+            }
+        };
+        a.push(n);
+        prev = Some(n);
+    }
+    Some((r, a))
+}
+
+pub fn run(m: &Model, ctx: &mut Ctx) {
+    ctx.explanation = "C14.num: the numbering code of the lexer (the closure(s) that build `Enumeral { .. }` inside the parser constructors called by enumerated_body, with the constructors' own leading lets) is evaluated abstractly on every enumeration with up to 4 root items and up to 3 additions, each identifier-only or carrying a number from the property's value set {-1,0,1,2,5}, and compared with the numbering of X.680 clause 20 (20.3: identifier-only root items get successive integers from 0 excluding every number written explicitly in the root; 20.6: an identifier-only addition gets the smallest number not used in the root and greater than all preceding additions); inputs that violate the clause's own preconditions are skipped. Explicit numbers (including negative ones), identifiers and order are compared in the same run. \
+C14.start: the root list is numbered from 0 and the additions' numbering is derived from the root list, never from a constant. \
+C14.keep: the number parser is signed (i128) and optional. \
+C14.emit: the generator emits Literal::i128_unsuffixed(e.index) as the discriminant of the same enumeral and keeps iteration order (no filter/sort/reverse on the member list). \
+Not decided: enumerations larger than the evaluated domain (the numbering code is a fold over the list with a counter and two membership tests; the domain covers every order relation between the counter, the explicit numbers and the root's numbers).".into();
+    ctx.assumptions = vec!["nom's many0 / fold_many0 deliver the parsed enumerals left to right".into()];
+    ctx.rule("abstract evaluation of the numbering code over all enumerations of <=4 root items and <=3 additions on {implicit,-1,0,1,2,5}, compared with the X.680 clause 20 oracle; def-use of the additions' start value; template checks");
+    let consts = const_resolver(m);
+    let ev = Evaluator { consts: &consts, call_hook: &crate::eval::no_hook, inline: None };
+
+    let Some(body) = anchor_fn(m, ctx, "C14.start", None, "enumerated_body", Some("lexer::enumerated")) else { return };
+    // the two parser constructors: (callee fn name, argument expressions), in source order
+    let ctor_calls: Vec<syn::ExprCall> = model::calls_in(&body.block).into_iter().filter(|c| {
+        let n = model::callee_name(c).unwrap_or_default();
+        m.fns.iter().any(|f| f.name == n && f.module.ends_with("lexer::enumerated") && tok(&f.block).contains("Enumeral{"))
+    }).collect();
+    ctx.oblige("C14.start", "root-from-zero", true);
+    ctx.oblige("C14.start", "additions-continue-after-root", true);
+    if ctor_calls.len() != 2 {
+        ctx.violate("C14.start", "call-count", &body.file, body.line, &format!("enumerated_body must number the root list and the additions (two calls of numbering parser constructors), found {}", ctor_calls.len()));
         return;
     }
-    let clo = syn::Expr::Closure(c.out[0].clone());
-    let mk_acc = |idx: &[i128]| -> Val {
-        Val::List(idx.iter().enumerate().map(|(i, n)| {
-            let mut f = BTreeMap::new();
-            f.insert("name".to_string(), Val::Str(format!("e{}", i)));
-            f.insert("index".to_string(), Val::int(*n));
-            f.insert("description".to_string(), Val::none());
-            Val::Ctor("Enumeral".into(), vec![], f)
-        }).collect())
+    let btxt = tok(&body.block);
+    let rootvar = btxt.split("(input,").nth(1).and_then(|s| s.split(")=").next()).unwrap_or("").to_string();
+    if tok(&ctor_calls[0].args) != "0" {
+        ctx.violate("C14.start", "root-from-zero", &body.file, body.line, &format!("root enumerals must be numbered from 0 ({}({}))", model::callee_name(&ctor_calls[0]).unwrap_or_default(), tok(&ctor_calls[0].args)));
+    }
+    let a1 = tok(&ctor_calls[1].args);
+    if rootvar.is_empty() || !a1.contains(&rootvar) || a1.chars().all(|ch| ch.is_ascii_digit()) {
+        ctx.violate("C14.start", "additions-continue-after-root", &body.file, body.line,
+            &format!("the numbering of the additions starts from `{}`: it must be derived from the root list so that additions never restart at a number the root already uses", a1));
+    }
+
+    // numbering evaluation
+    let enumeral_val = |name: &str, n: i128| {
+        let mut f = BTreeMap::new();
+        f.insert("name".to_string(), Val::Str(name.into()));
+        f.insert("index".to_string(), Val::int(n));
+        f.insert("description".to_string(), Val::none());
+        Val::Ctor("Enumeral".into(), vec![], f)
     };
     let item = |name: &str, idx: Option<i128>| Val::Tuple(vec![Val::Str(name.into()), idx.map(|i| Val::some(Val::int(i))).unwrap_or(Val::none()), Val::none(), Val::none()]);
-    let apply = |acc: Val, it: Val, start: i128| -> Result<Vec<(String, i128)>, String> {
-        let mut env = Env::new();
-        env.insert(start_param.clone(), Val::int(start));
-        match ev.apply_closure(&clo, &[acc, it], &env)? {
+    let read = |v: Val| -> Result<Vec<(String, i128)>, String> {
+        match v {
             Val::List(l) => l.iter().map(|e| match e {
                 Val::Ctor(_, _, f) => match (f.get("name"), f.get("index")) {
                     (Some(Val::Str(n)), Some(Val::Int { v, .. })) => Ok((n.clone(), *v)),
                     _ => Err(format!("enumeral without name/index: {}", e.show())),
                 },
-                o => Err(format!("non-enumeral in accumulator: {}", o.show())),
+                o => Err(format!("non-enumeral in the result: {}", o.show())),
             }).collect(),
-            o => Err(format!("closure returned {}", o.show())),
+            o => Err(format!("numbering returned {}", o.show())),
         }
     };
-
-    // ---- keep ----
-    for n in [-1i128, 0, 1, 5, 1000] {
-        for acc in [vec![], vec![0i128], vec![0, 1]] {
-            for start in [0i128, 3] {
-                let key = format!("explicit {} after {:?} start {}", n, acc, start);
-                ctx.oblige("C14.keep", &key, true);
-                match apply(mk_acc(&acc), item("x-y", Some(n)), start) {
-                    Ok(l) => {
-                        let last = l.last().cloned();
-                        if l.len() != acc.len() + 1 || last.as_ref().map(|x| x.1) != Some(n) {
-                            ctx.violate("C14.keep", "explicit-number-kept", &f.file, span_line(&c.out[0]), &format!("[{}] an explicit number must be stored unchanged as the last item; result {:?}", key, l));
-                        }
-                        if last.as_ref().map(|x| x.0.as_str()) != Some("x-y") {
-                            ctx.violate("C14.keep", "identifier-verbatim", &f.file, span_line(&c.out[0]), &format!("[{}] the enumeral identifier must be stored verbatim; result {:?}", key, l));
-                        }
-                        let prefix_ok = l.iter().take(acc.len()).map(|x| x.1).collect::<Vec<_>>() == acc;
-                        if !prefix_ok {
-                            ctx.violate("C14.keep", "earlier-items-untouched", &f.file, span_line(&c.out[0]), &format!("[{}] earlier items must be left as they are, in order; result {:?}", key, l));
-                        }
-                    }
-                    Err(e) => ctx.fail_closed("C14.keep", &format!("[{}]: {}", key, e)),
-                }
-            }
+    // number(list) for one constructor call: binds the constructor's parameter to the evaluated argument, runs its leading
+    // lets, then applies the Enumeral-building closure (a whole-list closure, or a fold closure applied left to right)
+    let number = |call: &syn::ExprCall, root_result: &[(String, i128)], items: &[(String, Option<i128>)]| -> Result<Vec<(String, i128)>, String> {
+        let fname = model::callee_name(call).unwrap_or_default();
+        let f = m.fns.iter().find(|f| f.name == fname && f.module.ends_with("lexer::enumerated")).ok_or("constructor fn not found")?;
+        let mut outer = Env::new();
+        if !rootvar.is_empty() {
+            outer.insert(rootvar.clone(), Val::List(root_result.iter().map(|(n, i)| enumeral_val(n, *i)).collect()));
         }
-    }
-    // ---- dep: identifier-only after explicit numbers that collide with the positional candidate ----
-    // every accumulator of up to 3 distinct numbers from the property's value set {-1,0,1,2,5} (one-step invariant of the
-    // fold: whatever was numbered before, the number given next to an identifier-only item is not among the used ones)
-    let vals = [-1i128, 0, 1, 2, 5];
-    let mut accs: Vec<Vec<i128>> = vec![vec![]];
-    for a in vals {
-        accs.push(vec![a]);
-        for b in vals {
-            if b != a {
-                accs.push(vec![a, b]);
-                for c3 in vals {
-                    if c3 != a && c3 != b {
-                        accs.push(vec![a, b, c3]);
+        let mut env = Env::new();
+        let params: Vec<String> = f.sig.inputs.iter().filter_map(|a| match a { syn::FnArg::Typed(t) => Some(tok(&t.pat)), _ => None }).collect();
+        for (p, a) in params.iter().zip(call.args.iter()) {
+            env.insert(p.clone(), ev.eval(a, &mut outer)?);
+        }
+        struct C {
+            out: Vec<syn::ExprClosure>,
+        }
+        impl model::DeepCb for C {
+            fn expr(&mut self, e: &syn::Expr) {
+                if let syn::Expr::Closure(c) = e {
+                    if tok(&c.body).contains("Enumeral{") {
+                        self.out.push(c.clone());
                     }
                 }
             }
         }
-    }
-    let scenario_text: Vec<String> = accs.iter().map(|a| format!("identifier-only item after items numbered {:?}", a)).collect();
-    let scenarios: Vec<(Vec<i128>, i128, &str)> = accs.iter().zip(scenario_text.iter()).map(|(a, t)| (a.clone(), 0i128, t.as_str())).collect();
-    let mut positional_everywhere = true;
-    let mut collision = None;
-    for (acc, start, what) in &scenarios {
-        ctx.oblige("C14.dep", what, true);
-        match apply(mk_acc(acc), item("n", None), *start) {
-            Ok(l) => {
-                let got = l.last().map(|x| x.1).unwrap_or(-999);
-                if got != acc.len() as i128 + start {
-                    positional_everywhere = false;
-                }
-                if acc.contains(&got) && collision.is_none() {
-                    collision = Some(format!("{} -> the identifier-only item gets {}, a number already used in the type", what, got));
-                }
-                if got < 0 {
-                    ctx.violate("C14.dep", "negative-implicit-number", &f.file, span_line(&c.out[0]), &format!("{}: identifier-only item numbered {}", what, got));
+        let mut c = C { out: vec![] };
+        model::deep_walk_block(&f.block, &mut c);
+        // outermost closure only
+        let texts: Vec<String> = c.out.iter().map(|x| tok(x)).collect();
+        let outer_cl: Vec<&syn::ExprClosure> = c.out.iter().enumerate().filter(|(i, _)| !texts.iter().enumerate().any(|(j, t)| j != *i && t.len() > texts[*i].len() && t.contains(&texts[*i]))).map(|(_, x)| x).collect();
+        if outer_cl.len() != 1 {
+            return Err(format!("{}: numbering closure not found", fname));
+        }
+        for st in &f.block.stmts {
+            if let syn::Stmt::Local(l) = st {
+                if let Some(init) = &l.init {
+                    let v = ev.eval(&init.expr, &mut env)?;
+                    if !matches!(ev.pat_match(&l.pat, &v, &mut env), crate::eval::PatM::Yes) {
+                        return Err(format!("{}: cannot bind `{}`", fname, tok(&l.pat)));
+                    }
                 }
             }
-            Err(e) => ctx.fail_closed("C14.dep", &format!("[{}]: {}", what, e)),
         }
-    }
-    if let Some(w) = collision {
-        ctx.violate("C14.dep", if positional_everywhere { "numbering-by-position" } else { "reuses-used-number" }, &f.file, span_line(&c.out[0]),
-            &format!("identifier-only enumerals are numbered {} the numbers used explicitly in the same type (X.680 §20.4: successive integers skipping used ones; all numbers distinct): {}",
-                if positional_everywhere { "from their position alone, independent of" } else { "without skipping all of" }, w));
-    }
-    ctx.sample(json!({"numbering_closure": tok(&c.out[0]).chars().take(200).collect::<String>(), "positional": positional_everywhere}));
-
-    // ---- start of additions ----
-    if let Some(b) = anchor_fn(m, ctx, "C14.start", None, "enumerated_body", Some("lexer::enumerated")) {
-        let calls: Vec<String> = model::calls_in(&b.block).iter().filter(|c| model::callee_name(c).as_deref() == Some("enumerals")).map(|c| tok(&c.args)).collect();
-        ctx.oblige("C14.start", "root-from-zero", true);
-        ctx.oblige("C14.start", "additions-continue-after-root", true);
-        if calls.len() != 2 {
-            ctx.violate("C14.start", "call-count", &b.file, b.line, &format!("enumerated_body must number the root list and the additions (two enumerals(..) calls), found {:?}", calls));
+        let clo = syn::Expr::Closure(outer_cl[0].clone());
+        let list: Vec<Val> = items.iter().map(|(n, i)| item(n, *i)).collect();
+        if outer_cl[0].inputs.len() == 1 {
+            read(ev.apply_closure(&clo, &[Val::List(list)], &env)?)
         } else {
-            if calls[0] != "0" {
-                ctx.violate("C14.start", "root-from-zero", &b.file, b.line, &format!("root enumerals must be numbered from 0 (enumerals({}))", calls[0]));
+            let mut acc = Val::List(vec![]);
+            for it in list {
+                acc = ev.apply_closure(&clo, &[acc, it], &env)?;
             }
-            // the root list variable bound from the first call
-            let body = tok(&b.block);
-            let rootvar = body.split("(input,").nth(1).and_then(|s| s.split(")=enumerals(").next()).unwrap_or("").to_string();
-            if rootvar.is_empty() || !calls[1].contains(&rootvar) || calls[1].chars().all(|ch| ch.is_ascii_digit()) {
-                ctx.violate("C14.start", "additions-continue-after-root", &b.file, b.line,
-                    &format!("the numbering of the additions starts from `{}`: it must be derived from the root list so that additions never restart at a number the root already uses", calls[1]));
+            read(acc)
+        }
+    };
+    let vals: [Option<i128>; 6] = [None, Some(-1), Some(0), Some(1), Some(2), Some(5)];
+    fn all_lists(vals: &[Option<i128>], max_len: usize) -> Vec<Vec<Option<i128>>> {
+        let mut out: Vec<Vec<Option<i128>>> = vec![vec![]];
+        let mut frontier: Vec<Vec<Option<i128>>> = vec![vec![]];
+        for _ in 0..max_len {
+            let mut next = vec![];
+            for l in &frontier {
+                for v in vals {
+                    let mut n = l.clone();
+                    n.push(*v);
+                    next.push(n);
+                }
+            }
+            out.extend(next.iter().cloned());
+            frontier = next;
+        }
+        out
+    }
+    let lists = all_lists(&vals, 4);
+    let adds = all_lists(&vals, 3);
+    let show = |l: &[Option<i128>], pre: &str| l.iter().enumerate().map(|(i, x)| match x { Some(n) => format!("{}{}({})", pre, i, n), None => format!("{}{}", pre, i) }).collect::<Vec<_>>().join(", ");
+    let mut evaluated = 0usize;
+    let mut reported: std::collections::BTreeSet<String> = std::collections::BTreeSet::new();
+    'outer: for root in &lists {
+        let root_items: Vec<(String, Option<i128>)> = root.iter().enumerate().map(|(i, x)| (format!("r-{}", i), *x)).collect();
+        // the root result does not depend on the additions: evaluate it once
+        let Some((want_root, _)) = spec_numbering(root, &[]) else { continue };
+        let got_root = match number(&ctor_calls[0], &[], &root_items) {
+            Ok(g) => g,
+            Err(e) => {
+                ctx.fail_closed("C14.num", &format!("[root {{ {} }}]: {}", show(root, "r"), e));
+                break 'outer;
+            }
+        };
+        evaluated += 1;
+        let names_ok = got_root.iter().map(|x| x.0.clone()).collect::<Vec<_>>() == root_items.iter().map(|x| x.0.clone()).collect::<Vec<_>>();
+        if !names_ok && reported.insert("identifier".into()) {
+            ctx.violate("C14.num", "identifiers-in-order", &body.file, body.line, &format!("ENUMERATED {{ {} }}: the identifiers must be kept verbatim and in order; got {:?}", show(root, "r-"), got_root));
+        }
+        let got_nums: Vec<i128> = got_root.iter().map(|x| x.1).collect();
+        if got_nums != want_root {
+            let explicit_changed = root.iter().zip(got_nums.iter()).any(|(w, g)| w.map(|w| w != *g).unwrap_or(false));
+            let dup = got_nums.iter().enumerate().any(|(i, g)| got_nums[..i].contains(g));
+            let key = if explicit_changed { "explicit-number-kept" } else if dup { "root:reuses-used-number" } else { "root:not-clause-20" };
+            if reported.insert(key.into()) {
+                ctx.violate("C14.num", key, &body.file, body.line, &format!("ENUMERATED {{ {} }} is numbered {:?}; X.680 20.3 gives {:?} (explicit numbers kept, identifier-only items get successive integers from 0 skipping every number written explicitly)", show(root, "r"), got_nums, want_root));
+            }
+            continue;
+        }
+        for add in &adds {
+            if add.is_empty() {
+                continue;
+            }
+            let Some((_, want_add)) = spec_numbering(root, add) else { continue };
+            let add_items: Vec<(String, Option<i128>)> = add.iter().enumerate().map(|(i, x)| (format!("a-{}", i), *x)).collect();
+            let got = match number(&ctor_calls[1], &got_root, &add_items) {
+                Ok(g) => g,
+                Err(e) => {
+                    ctx.fail_closed("C14.num", &format!("[{{ {}, ..., {} }}]: {}", show(root, "r"), show(add, "a"), e));
+                    break 'outer;
+                }
+            };
+            evaluated += 1;
+            let got_nums: Vec<i128> = got.iter().map(|x| x.1).collect();
+            if got_nums != want_add {
+                let explicit_changed = add.iter().zip(got_nums.iter()).any(|(w, g)| w.map(|w| w != *g).unwrap_or(false));
+                let reuse = got_nums.iter().enumerate().any(|(i, g)| want_root.contains(g) || got_nums[..i].contains(g));
+                let key = if explicit_changed { "explicit-number-kept" } else if reuse { "additions:reuses-used-number" } else { "additions:not-clause-20" };
+                if reported.insert(key.into()) {
+                    ctx.violate("C14.num", key, &body.file, body.line, &format!("ENUMERATED {{ {}, ..., {} }}: the additions are numbered {:?}; X.680 20.6 gives {:?} (smallest number not used in the root and greater than all preceding additions)", show(root, "r"), show(add, "a"), got_nums, want_add));
+                }
             }
         }
     }
+    ctx.oblige_n("C14.num/enumerations", evaluated);
+    for k in ["root", "additions", "explicit-number-kept", "identifiers-in-order"] {
+        ctx.oblige("C14.num", k, true);
+    }
+    ctx.floor("C14.num/enumerations-evaluated", evaluated, 7000);
+    ctx.sample(json!({"enumerations_evaluated": evaluated, "numbering_constructors": ctor_calls.iter().map(|c| tok(c)).collect::<Vec<_>>()}));
+
     // ---- signed number parser ----
     if let Some(e) = anchor_fn(m, ctx, "C14.keep", None, "enumeral", Some("lexer::enumerated")) {
         ctx.oblige("C14.keep", "signed-number-parser", true);
